@@ -12,7 +12,8 @@
 
    Protocol (one request per line):
      maketree <lens>             -> ok | incomplete | oversubscribed
-     lookup <lens> <v 16 hex>    -> <internal symbol> <length> | oob | <verdict>
+     lookup <lens> <v 16 hex,...> -> for each window "<internal symbol> <length>" | oob,
+                                    comma separated; or <verdict>
      tables <lens>               -> base[1..21] hex ; count[0..20] ; perm ; start
                                     | <verdict>
    The second translation unit is /repo/src/crctab.c (decode.c refers to
@@ -78,7 +79,7 @@ run_make_tree(char *a_lens)
 int
 main(void)
 {
-  static char line[1 << 16];
+  static char line[1 << 20];
 
   while (fgets(line, sizeof line, stdin)) {
     char *cmd, *a1, *a2, *save;
@@ -98,30 +99,37 @@ main(void)
       if (!rs) puts("bad-arg");
       else if (rs->mtf[0] != 0) { puts(verdict_name(rs->mtf[0])); free(rs); }
       else {
-        uint64_t v = strtoull(a2, 0, 16);
-        struct tree *T = &rs->tree[rs->t];
-        unsigned s = 0, x, k;
-        int oob = 0;
-        /* ---- replicated from retrieve(), decode.c ---- */
-        x = T->start[PEEK(HUFF_START_WIDTH)];
-        k = x & 0x1F;
+        char *tok, *sv;
+        int first = 1;
+        for (tok = strtok_r(a2, ",", &sv); tok; tok = strtok_r(0, ",", &sv)) {
+          uint64_t v = strtoull(tok, 0, 16);
+          struct tree *T = &rs->tree[rs->t];
+          unsigned s = 0, x, k;
+          int oob = 0;
+          /* ---- replicated from retrieve(), decode.c ---- */
+          x = T->start[PEEK(HUFF_START_WIDTH)];
+          k = x & 0x1F;
 
-        if (likely(k <= HUFF_START_WIDTH)) {
-          s = x >> 5;
-        }
-        else {
-          while (k + 1 <= MAX_CODE_LENGTH + 1 /* guard */ && v >= T->base[k + 1])
-            k++;
-          if (k > MAX_CODE_LENGTH) oob = 1;   /* guard */
-          else {
-            uint64_t idx = T->count[k] + ((v - T->base[k]) >> (64 - k));
-            if (idx >= rs->alpha_size) oob = 1;   /* guard */
-            else
-              s = T->perm[T->count[k] + ((v - T->base[k]) >> (64 - k))];
+          if (likely(k <= HUFF_START_WIDTH)) {
+            s = x >> 5;
           }
+          else {
+            while (k + 1 <= MAX_CODE_LENGTH + 1 /* guard */ && v >= T->base[k + 1])
+              k++;
+            if (k > MAX_CODE_LENGTH) oob = 1;   /* guard */
+            else {
+              uint64_t idx = T->count[k] + ((v - T->base[k]) >> (64 - k));
+              if (idx >= rs->alpha_size) oob = 1;   /* guard */
+              else
+                s = T->perm[T->count[k] + ((v - T->base[k]) >> (64 - k))];
+            }
+          }
+          /* ---- end of replicated lines ---- */
+          if (!first) putchar(',');
+          first = 0;
+          if (oob) printf("oob"); else printf("%u %u", s, k);
         }
-        /* ---- end of replicated lines ---- */
-        if (oob) puts("oob"); else printf("%u %u\n", s, k);
+        putchar('\n');
         free(rs);
       }
     }
